@@ -698,6 +698,13 @@ func castArr(opts *options, v value) ([]value, Error) {
 		// the reference is only under evaluation while it is resolved here
 		leave := opts.enterReference()
 		unrefed, err := ref.getValue(opts)
+		if next, ok := unrefed.(*cfgDynamic); ok && err == nil {
+			// a reference to a reference: follow it while this one is still
+			// under evaluation, so that a chain leading back here is noticed
+			arr, err := castArr(opts, next)
+			leave()
+			return arr, err
+		}
 		leave()
 		if err != nil {
 			return nil, raiseMissingMsg(ref.ctx.getParent(), ref.ctx.field, err.Error())
